@@ -24,6 +24,7 @@ func checkC01(w *World, r *Report) {
 	r.Rule("R01.4", "multiplexer configuration admissible", 2)
 	r.Rule("R01.5", "websocket Write splits without gaps or overlaps", 1)
 	r.Rule("R01.6", "Write methods report the full count on success", 4)
+	r.Rule("R01.8", "receive/send buffers that are written under a mutex are written under the same mutex everywhere", 3)
 	r.Rule("R01.7", "every serving goroutine works on the connection accepted for it (no shared re-assigned variable)", 1)
 
 	c01Reads(w, r)
@@ -32,6 +33,7 @@ func checkC01(w *World, r *Report) {
 	c01Smux(w, r)
 	c01WsWrite(w, r)
 	c01WriteCounts(w, r)
+	ruleLocksetConsistent(w, r, "R01.8", func(p string) bool { return connPkgs(p) || p == modPath+"/internal/streams/dns/util" }, "a reader overlapping a writer of the same buffer sees it half-updated: bytes delivered twice, lost or torn")
 	ruleLoopVarEscape(w, r, "R01.7", connPkgs, "the goroutine started for connection N reads the variable after the loop stored connection N+1 into it: N is never served and N+1 is served twice, its bytes torn between two handlers")
 }
 
